@@ -265,11 +265,18 @@ func (s *Scope) Decorate(decorator interface{}, opts ...DecorateOption) error {
 	if err != nil {
 		return err
 	}
+	// Check every key before registering any of them, so that a rejected
+	// decorator is not left registered for some of its results.
+	seen := make(map[key]struct{}, len(keys))
 	for _, k := range keys {
-		if _, ok := s.decorators[k]; ok {
+		_, decorated := s.decorators[k]
+		if _, dup := seen[k]; decorated || dup {
 			return newErrInvalidInput(
 				fmt.Sprintf("cannot decorate using function %v: %s already decorated", dn.dtype, k), nil)
 		}
+		seen[k] = struct{}{}
+	}
+	for _, k := range keys {
 		s.decorators[k] = dn
 	}
 
